@@ -4,7 +4,7 @@ import copy
 
 from .. import ordtype as O
 from ..loader import AnalysisError, norm_stmt
-from ..small import FoldError, cond_defaults, expanded_keywords, fold
+from ..small import FoldError, UnrollError, cond_defaults, expanded_keywords, fold, subst_fold, unroll_for
 from .C16 import signed_factors, terms
 
 TA = "transform/array.py"
@@ -55,24 +55,27 @@ def discrete_partition(ctx, rule="R19.1"):
             top.append(("LOOP", st, None))
     if loop is None or not top:
         raise AnalysisError("anchor vanished: class assignments in array_discrete")
-    ok_loop = ast.unparse(loop.iter) == "enumerate(values[1:-1])" and isinstance(loop.target, ast.Tuple) and len(loop.target.elts) == 2
-    if not ok_loop:
-        ctx.undecided(rule, site, "class loop is not `for i, value in enumerate(values[1:-1])`: %s" % ast.unparse(loop.iter))
-        return
-    ivar, vvar = loop.target.elts[0].id, loop.target.elts[1].id
     total = 0
     for n_thr in (1, 2, 3, 4):
         thr_texts = ["thresholds[%d]" % k for k in range(n_thr)]
         seqs = []  # (mask expr, value index)
         for mask, val, _ in top:
             if mask == "LOOP":
-                for i in range(n_thr - 1):  # len(values[1:-1]) = n_thr + 1 - 2
+                lens = {"thresholds": n_thr, "values": n_thr + 1}
+                try:
+                    its = unroll_for(val, lens)
+                except UnrollError as e:
+                    ctx.undecided(rule, site, "class loop cannot be unrolled statically: %s" % e)
+                    return
+                if any(not (isinstance(s, ast.Assign) and isinstance(s.targets[0], ast.Subscript) and ast.unparse(s.targets[0].value) == "result") for s in val.body):
+                    ctx.undecided(rule, site, "class loop body contains more than mask assignments to the result")
+                    return
+                for b in its:
                     for s in val.body:
-                        if isinstance(s, ast.Assign) and isinstance(s.targets[0], ast.Subscript):
-                            m = _subst(s.targets[0].slice, {ivar: i}, n_thr)
-                            v = ast.unparse(s.value)
-                            vi = i + 1 if v == vvar else None
-                            seqs.append((m, vi, v))
+                        m = subst_fold(s.targets[0].slice, b, lens)
+                        v = subst_fold(s.value, b, lens)
+                        vi = v.slice.value if isinstance(v, ast.Subscript) and ast.unparse(v.value) == "values" and isinstance(v.slice, ast.Constant) else None
+                        seqs.append((m, vi, ast.unparse(v)))
             else:
                 m = _subst(mask, {}, n_thr)
                 v = _subst(val, {}, n_thr)
@@ -201,7 +204,7 @@ def wrapper_siblings(ctx, rule="R19.2"):
     ctx.check(got_tail == want_tail, rule, TF + "::apply_function", "stored field -> (pre-process) -> function -> (post-process) -> store unprocessed result", "apply-function-shape")
     cd = prog.func(TF, "_check_for_default_normal")
     tests = sorted(ast.unparse(s.test) for s in cd.body if isinstance(s, ast.If))
-    ctx.check(tests == sorted(["not type(fld.normalizer) == Normalizer", "fld.trend is not None", "callable(fld.mean) or fld.mean is None"]), rule, TF + "::_check_for_default_normal",
+    ctx.check(tests == sorted(["type(fld.normalizer) != Normalizer", "fld.trend is not None", "callable(fld.mean) or fld.mean is None"]), rule, TF + "::_check_for_default_normal",
               "default normal = identity normalizer, no trend, constant mean", "default-normal")
     del ta
 
